@@ -25,8 +25,9 @@ ObservedEquals(c, dv, ks, deg) ==
 Fails(pairs) == {p[1] : p \in {q \in pairs : ~q[2]}}     \* pairs: set of <<name, holds>>
 
 Tol(t) == t                                   \* <<"default">> | <<"none">> | <<"q", n, d>>
-TolNum(t) == IF t[1] = "default" THEN 1 ELSE t[2]
-TolDen(t) == IF t[1] = "default" THEN 1000000000 ELSE t[3]
+(* <<"e", k>> stands for 10^-k with k > 9 (not representable): treated as "smaller than anything but zero" *)
+TolNum(t) == IF t[1] = "default" THEN 1 ELSE IF t[1] = "e" THEN 1 ELSE t[2]
+TolDen(t) == IF t[1] = "default" THEN 1000000000 ELSE IF t[1] = "e" THEN 1000000000 ELSE t[3]
 
 Width(U) == Sub(Umax(U), Umin(U))
 
@@ -50,7 +51,9 @@ SpanLen(ks, u) ==
   LET i == CHOOSE k \in 1..(Len(ks) - 1) : Le(ks[k], u) /\ Le(u, ks[k + 1]) IN Sub(ks[i + 1], ks[i])
 ExceedsTol(lb, tn, td, width) ==              \* lb > 2 (tn/td) max(1,width) ?  "yes" / "no" / "unknown"
   LET L == IF Lt(width, One) THEN One ELSE width IN
-  IF IsZero(lb) THEN "no"
+  IF IsNaR(lb) THEN "unknown"
+  ELSE IF IsZero(lb) THEN "no"
+  ELSE IF tn = 0 THEN "yes"                       \* zero tolerance: any positive deviation exceeds it
   ELSE IF lb[2] <= 30000 /\ Abs(lb[1]) <= 30000 /\ L[1] <= 1000 /\ L[2] <= 1000 /\ td <= 1000
   THEN (IF Lt(Mul(Q(2 * tn, td), L), lb) THEN "yes" ELSE "no")
   ELSE IF tn = 1 /\ td > 1000 /\ lb[2] <= 20000 /\ L[1] <= 50 /\ L[2] = 1
